@@ -180,6 +180,23 @@ def eval_epoched(case):
     if v is not None:
         v['msg'] = 'epoched table (offsets added back): ' + v['msg']
         return v
+    # the documented next step: flatten_dfs(list, labels) - every row still belongs to the epoch (signal stretch) its label names
+    from bycycle.utils import flatten_dfs
+    labels = ['ep%02d' % e for e in range(len(dfs))]
+    flat = flatten_dfs([d.copy() for d in dfs], labels)
+    sc = sample_cols(centre)
+    for lab, grp in flat.groupby('Label', sort=False):
+        e = labels.index(lab)
+        g = grp.drop(columns=['Label']).reset_index(drop=True)
+        for c in g.columns:
+            if c.startswith('sample_'):
+                g[c] = g[c] + e * E
+        v = check_shape_table(g, sig, o, {'centre': centre, 'via': 'epoched+flatten_dfs', 'devs': []}) if len(g) else None
+        if v is not None:
+            v['msg'] = 'rows labelled %s after flatten_dfs, read against epoch %d of the signal: ' % (lab, e) + v['msg']
+            return v
+    if len(flat) != len(full):
+        return VIOL({'centre': centre, 'via': 'epoched+flatten_dfs', 'kind': 'rows', 'devs': []}, 'flatten_dfs returned %d rows for %d cycles' % (len(flat), len(full)))
     return OK(outcome=(w, centre, E, table_hash(full, SHAPE_COLS)), nontrivial=sum(1 for d in dfs if len(d)) >= 2)
 
 
@@ -333,7 +350,7 @@ def spaces(tier, seed):
                                 describe='durations / voltages / symmetry on every tiling table over every signal of length 6'))
         out.append(ProductSpace('bandamp-words', S.word_dims(S.alphabet(4), 2), eval_bandamp,
                                 describe='compute_band_amp on 2-letter words x every tiling on the even grid x n_cycles 1,2'))
-        ep = [(c, E) for c in ('peak', 'trough') for E in (16, 24)]
+        ep = [(c, E) for c in ('peak', 'trough') for E in (16, 24, 8)]       # E = 8: epochs of one cycle, some of them empty
         out.append(ProductSpace('epoched-W(3,6)', S.word_dims(S.alphabet(3), 6) + [ep], eval_epoched,
                                 describe='epoch tables of compute_features_2d(axis=None) checked against the definitions'))
         ali_ = ['a', 'A', 'w', 'd']
